@@ -107,10 +107,23 @@ def _strip_to_alloc(pt, ref):
 
 
 # ---- heap object contents ------------------------------------------------------------------
+def list_leaves(I: Interp, t):
+    """The list objects a term may denote when it is a list object or a conditional choice between list objects; else None."""
+    if isinstance(t, tuple) and t and t[0] == "cond":
+        a, b = list_leaves(I, t[2]), list_leaves(I, t[3])
+        return None if a is None or b is None else a + b
+    if isinstance(t, tuple) and t and t[0] == "ref" and isinstance(I.obj(t), HList):
+        return [t]
+    return None
+
+
 def list_content(I: Interp, ref, tree):
     """Segments of list object ``ref`` after all effects of ``tree``: initial segments followed by the projected
     in-place mutations, nested in the if/loop structure they occur in.
     Segment kinds: ('e', t) ('s', t) ('loop', id, segs) ('if', c, segsT, segsE) ('op', name, args, line)."""
+    if isinstance(ref, tuple) and ref and ref[0] == "cond" and list_leaves(I, ref) is not None:
+        # one of two list objects, chosen by a condition: the content is conditional
+        return [("if", ref[1], list_content(I, ref[2], tree), list_content(I, ref[3], tree))]
     o = I.obj(ref)
     segs = list(o.segs) if isinstance(o, HList) else [("s", ref)]
     pt = project(tree, lambda n: (n[0] == "mutate" and n[1] == ref) or (n[0] == "alloc" and n[1] == ref))
@@ -247,6 +260,32 @@ def subst(t, mapping: dict):
         return mapping[t]
     new = tuple(subst(x, mapping) if isinstance(x, tuple) else x for x in t)
     return mapping.get(new, new)
+
+
+def push_cond_in(t):
+    """``(f(a) if c else f(b))`` -> ``f(a if c else b)``: a choice between two terms of the same shape that differ in one
+    place is the choice made at that place (the inverse of the interpreter's outward distribution of conditionals)."""
+    if not (isinstance(t, tuple) and len(t) == 4 and t[0] == "cond"):
+        return t
+    c, x, y = t[1], t[2], t[3]
+    if not (isinstance(x, tuple) and isinstance(y, tuple) and x and y and x[0] == y[0] and len(x) == len(y)) or x[0] in ("const", "ref", "cond"):
+        return t
+    diff = [i for i in range(len(x)) if x[i] != y[i]]
+    if len(diff) != 1:
+        return t
+    i = diff[0]
+    if not (isinstance(x[i], tuple) and isinstance(y[i], tuple)):
+        return t
+    if x[i] and y[i] and isinstance(x[i][0], tuple) and len(x[i]) == len(y[i]):
+        # a tuple of argument terms: descend into the one argument that differs
+        d2 = [j for j in range(len(x[i])) if x[i][j] != y[i][j]]
+        if len(d2) != 1:
+            return t
+        j = d2[0]
+        inner = x[i][:j] + (push_cond_in(("cond", c, x[i][j], y[i][j])),) + x[i][j + 1:]
+    else:
+        inner = push_cond_in(("cond", c, x[i], y[i]))
+    return x[:i] + (inner,) + x[i + 1:]
 
 
 def contains(t, pred) -> bool:
